@@ -404,9 +404,14 @@ class SubFxp(Fxp):
     pass
 
 
+class SubFxp2(Fxp):
+    """a sibling subclass"""
+    pass
+
+
 ENV_CFG = ('dtype_notation=Q', 'array_op_method=raw', 'n_word_max=128', 'max_error=0.015625', 'bin_prefix=0b', 'op_input_size=best',
            'const_op_sizing=largest', 'op_method=repr')
-ENVS = tuple('cfg:' + c for c in ENV_CFG) + ('template:u', 'template:s', 'subclass', 'flagged', 'callbacks')
+ENVS = tuple('cfg:' + c for c in ENV_CFG) + ('template:u', 'template:s', 'subclass', 'subclass_left', 'subclass_right', 'flagged', 'callbacks')
 # environments that do change what an operation means are left out per check (e.g. op_method for raw-vs-repr comparisons)
 
 
@@ -425,6 +430,12 @@ def build_env(f, cs, shape, env, **kw):
         return Fxp(arr, f[0], f[1], f[2], raw=True, rounding=kw.pop('rounding', 'trunc'), overflow=kw.pop('overflow', 'saturate'), **kw)
     if env == 'subclass':
         return SubFxp(arr, f[0], f[1], f[2], raw=True, **kw)
+    if env in ('subclass_left', 'subclass_right'):
+        # mixed classes: which operand is the subclass instance is decided by its shape (column vectors and 1-d arrays are "left"
+        # operands in every harness, rows and scalars "right" ones), so a case replays identically
+        left = shape != () and (len(shape) < 2 or shape[-1] == 1)
+        cls = (SubFxp if left else Fxp) if env == 'subclass_left' else (Fxp if left else SubFxp2)
+        return cls(arr, f[0], f[1], f[2], raw=True, **kw)
     if env == 'callbacks':
         return Fxp(arr, f[0], f[1], f[2], raw=True, callbacks=[Recorder()], **kw)
     if env == 'flagged':
